@@ -959,6 +959,20 @@ class Engine:
             return set(out) if isinstance(e, ast.SetComp) else out
         if isinstance(e, ast.Set):
             return set(self.eval(x, env) for x in e.elts)
+        if isinstance(e, ast.DictComp):
+            if len(e.generators) != 1:
+                raise Unsupported("nested comprehension")
+            g = e.generators[0]
+            items = self.concrete_iter(self.eval(g.iter, env))
+            if items is None:
+                raise Unsupported("comprehension over symbolic iterable")
+            out = {}
+            local = dict(env)
+            for item in items:
+                self.assign(g.target, item, local)
+                if all(self.truth(self.eval(c, local)) for c in g.ifs):
+                    out[self.eval(e.key, local)] = self.eval(e.value, local)
+            return out
         if isinstance(e, ast.Starred):
             raise Unsupported("starred")
         raise Unsupported(type(e).__name__)
